@@ -26,6 +26,10 @@ CHECKS = {
          "model checking (safety + liveness) + trace validation", "5 C07"),
  "C08": ("Round.tla / RoundTrace.tla", "TLC: MC of Round.tla for T in {2,3} with every panic point (NoStartBeforeAllGeneratedAndCleared, NoDropBeforeAllEnded, NoDeadlock, <>Final; the unguarded variant must deadlock); trace validation of multi-threaded runs incl. scripted panics on thread subsets",
          "model checking + trace validation; found and now guards finding F5", "5 C08"),
+ "C11": ("BigNat.tla / Time.tla / MC_Time / NumTrace.tla", "TLC: MC_Time checks the algebraic laws of Time.tla's Elapsed (monotone in b, additive within 1 ps per term, translation invariant, zero for b < a) on the 64-bit boundary grid with arbitrary-precision BigNat arithmetic; every (a, b, f, result) of TscTimestamp::duration_since, every Duration conversion and every Timer::precision() measured against a quantised virtual clock is recomputed in TLA+ (NumTrace)",
+         "model checking of the laws + TLC as exact evaluator over recorded calls (boundary grids, log-spaced and random 64-bit inputs, near-overflow products)", "5 C11"),
+ "C12": ("Runner.tla / RunnerTrace.tla (registry rules)", "TLC trace validation on macro-generated crates (back-end M: 112 syntactic forms of #[divan::bench] / #[divan::bench_group], compiled against the real macros): the dumped registry (names, module paths, source positions, options, argument cases, types x consts instances) must equal what Runner.tla derives from the written program, nothing else registered; printed tree and executed cases as for C13; back-end R with permuted registration orders",
+         "TLC compares registry dumps and runs of generated crates with the declarative program semantics", "5 C12"),
  "C13": ("Runner.tla / Filters.tla / RunnerTrace.tla", "TLC trace validation: for every generated program x filter set (positional / --skip / --exact, regex subset with explicit AST) the set of printed nodes and of invoked cases is compared with Runner.tla's declarative selection on full display paths (per argument case; parents iff a selected case lies below); FilterSet::is_match in-crate against Filters.tla",
          "TLC evaluates the declarative pipeline over generated programs executed by the real runner", "5 C13"),
  "C14": ("Runner.tla / RunnerTrace.tla", "TLC trace validation: under --list, --list --format terse (NEXTEST=1) and Divan::list_benches no invoke/call event may occur; the set of terse lines must equal Runner.tla's would-run set (filters, ignore flags, inherited/overridden ignore); every listed path is fed back as the only --exact filter of a run that must execute exactly that case",
@@ -38,6 +42,8 @@ CHECKS = {
          "identity of (label, received value) pairs logged by generated benchmark bodies", "5 C17"),
  "C20": ("Runner.tla / RunnerTrace.tla", "TLC trace validation: the printed tree is parsed back from glyph groups alone (depth, branch/corner vs. later siblings, vertical bars vs. ancestors), must contain each selected group/benchmark/argument/thread-count row exactly once in sorted depth-first order, (ignored) marks only on ignored benchmarks, samples/iters cells equal to the statistics the runner computed, continuation rows attached to a benchmark",
          "parse-back and comparison done by TLC on lexed lines", "5 C20"),
+ "C18": ("BigNat.tla / Fmt.tla / MC_Fmt / NumTrace.tla", "TLC: MC_Fmt checks parse-back bound, digit budget, no exponent / trailing zeros of Fmt.tla over every value 0..12000 ps and all unit / 10^k boundary neighbourhoods up to 2^128-1; every Display string of FineDuration (default, precisions, widths), format_bytes and DisplayThroughput on generated inputs is compared with Fmt.tla (durations exactly; sizes and throughputs within the +-2^-50 relative interval the statement grants)",
+         "model checking of the format's theorems + TLC as exact evaluator over recorded calls", "5 C18"),
  "C19": ("Loop.tla / LoopTrace.tla / MC_Loop", "TLC: MC_Loop (SizesArePowersOfTwo, ThresholdRule, EarlierSamplesDiscarded, BudgetCoversTuning); trace validation of tuned runs: every tuning step recomputed from the logged readings and the scripted precision",
          "model checking + trace validation", "5 C19"),
 }
